@@ -83,6 +83,15 @@ int main()
                 else if (rel == 2) release_at(at, p, [q] { q->close(); });
                 else if (t == D) release_at(600, p, [q] { q->close(); });   // not judged: lets the thread end; blocked is sampled at 600
             }
+    // ---- A2: the deadline overload: a getter blocked in get_until(now + 3 s) on an empty queue must return false as soon as close() comes
+    //          (and true with the item as soon as a put comes)
+    for (int rel = 1; rel <= 2; ++rel) {
+        auto q = std::make_shared<Q1>(); keep.push_back(q);
+        Probe* p = add(std::string("until_empty/") + (rel == 1 ? "peer" : "close"));
+        launch(p, [q] { int v = 0; return q->get_until(v, steady_clock::now() + milliseconds(3000)); });
+        if (rel == 1) release_at(300, p, [q] { q->put(9, seconds(0)); });
+        else release_at(300, p, [q] { q->close(); });
+    }
     // ---- B: close wakes every blocked caller (3 consumers on an empty queue, 3 producers on a full one)
     {
         auto qe = std::make_shared<Q1>(), qf = std::make_shared<Q1>(); keep.push_back(qe); keep.push_back(qf);
